@@ -443,8 +443,21 @@ func suiteStream(o *Out, r *Rng, n int, tier string) {
 			c.cur = &cr
 			c.mode = "from"
 			o.Stat("stream.start.cursor_"+cr.step, 1)
-			if r.Intn(4) == 0 {
+			if r.Intn(3) == 0 {
 				c.mode = "through"
+				if r.Intn(4) != 0 { // prefer target cursors whose block the hub no longer retains (the files have to carry the stream past it)
+					var bc []curRec
+					for _, e := range cand {
+						if parseRefTok(e.blk).Num() < lowest0 && onChain[strings.Split(e.blk, ":")[0]] {
+							bc = append(bc, e)
+						}
+					}
+					if len(bc) > 0 {
+						cr = bc[r.Intn(len(bc))]
+						c.cur = &cr
+						o.Stat("stream.start.target_cursor_below_hub_window", 1)
+					}
+				}
 				bn := parseRefTok(cr.blk).Num()
 				lo := chain[0].Num
 				if bn < lo {
